@@ -46,6 +46,10 @@ def sorted_symbolic(engine, it, seq, kwargs):
     if kwargs.get("key") is not None:
         raise Unsupported("sorted(key=) on symbolic sequence")
     rev = it.decide(kwargs.get("reverse", False))
+    memo_key = (id(seq), rev)
+    cache = ctx.__dict__.setdefault("sorted_cache", {})
+    if memo_key in cache:
+        return cache[memo_key][1]
     ctx.trusted.add("model:sorted() returns a permutation of its input, ordered by the elements' __lt__")
     n = seq.length
     out = SymSeq(n, seq.shape, fresh_arrays(seq.arrays, "sorted"))
@@ -75,6 +79,7 @@ def sorted_symbolic(engine, it, seq, kwargs):
         ctx.assume(z3.ForAll([a, b], z3.Implies(rng2, z3.Not(ltz))))
     except Infeasible:
         pass
+    cache[memo_key] = (seq, out)
     return out
 
 
